@@ -83,10 +83,12 @@ class NegSoftplusTransform(SoftplusTransform):
         super().__init__(upper)
 
     def forward(self, x: ArrayLike) -> Array:
-        return -super().forward(-x)
+        # `self.lower` holds the upper bound.
+        return self.lower - jax.nn.softplus(-x)
 
     def inverse(self, y: ArrayLike) -> Array:
-        return -super().inverse(-y)
+        z = self.lower - y
+        return -(z + jnp.log(-jnp.expm1(-z)))
 
 
 class AffineTransform(Transform):
